@@ -173,6 +173,10 @@ def format_datetime(dttm):
 
     """
 
+    if not hasattr(dttm, "hour"):
+        # a date (both JSON encoders send dates here): midnight UTC
+        dttm = dt.datetime.combine(dttm, dt.time(0, 0, tzinfo=pytz.utc))
+
     if dttm.tzinfo is None or dttm.tzinfo.utcoffset(dttm) is None:
         # dttm is timezone-naive; assume UTC
         zoned = pytz.utc.localize(dttm)
